@@ -9,7 +9,6 @@ import (
 	"os"
 	"os/exec"
 	"reflect"
-	"runtime/debug"
 	"strconv"
 	"strings"
 	"time"
@@ -210,6 +209,7 @@ type rtEvent struct {
 	Res      tvNode `json:"res"`
 	Orig     tvNode `json:"orig"`
 	Hang     bool   `json:"hang"`     // the call did not return within the watchdog period (child process killed)
+	Skip     bool   `json:"skip"`     // stage 1 failed and the same kinds already have a verdict confirmed alone in this run: not judged
 	TagKeyed bool   `json:"tagkeyed"` // the data was written with UseTags (keys are the json tag names)
 	Alias    bool   `json:"alias"`    // two positions of the result share a pointer target, map or slice backing array
 	OAlias   bool   `json:"oalias"`   // ... of the original
@@ -367,41 +367,19 @@ func rtOne(api rtAPI, rv reflect.Value) (ev rtEvent) {
 	return
 }
 
-const watchdog = 1500 * time.Millisecond
-
-// rtIsolated runs one round trip in a child process (encode rtchild <api index>) and waits at most the watchdog period.
+// rtIsolated runs one round trip in a child process (encode rtchild <api index>) with the two-stage verdict of iso.go.
 func rtIsolated(line []byte, ai int, api rtAPI, c *caseSpec) []byte {
-	self, _ := os.Executable()
-	cmd := exec.Command(self, "rtchild", fmt.Sprint(ai))
-	cmd.Stdin = bytes.NewReader(line)
-	var ob, eb bytes.Buffer
-	cmd.Stdout, cmd.Stderr = &ob, &eb
-	if err := cmd.Start(); err != nil {
-		fmt.Fprintln(os.Stderr, "rtchild does not start:", err)
-		os.Exit(2)
-	}
-	done := make(chan error, 1)
-	go func() { done <- cmd.Wait() }()
-	hang, why := false, ""
-	select {
-	case err := <-done:
-		if err != nil || len(bytes.TrimSpace(ob.Bytes())) == 0 {
-			hang, why = true, "the process died: "+trunc(lastLine(eb.String()))
-		}
-	case <-time.After(watchdog):
-		_ = cmd.Process.Kill()
-		<-done
-		hang, why = true, fmt.Sprintf("no return within %s", watchdog)
-	}
-	if !hang {
-		return bytes.TrimSpace(ob.Bytes())
+	res := runChild([]string{"rtchild", fmt.Sprint(ai)}, line, 1500*time.Millisecond, 10, isolatedKinds(c))
+	if res.verdict == nil {
+		return res.out
 	}
 	rv, err := buildValue(c)
 	if err != nil {
 		fmt.Fprintln(os.Stderr, "encode:", err)
 		os.Exit(2)
 	}
-	return mustJSON(rtEvent{Ev: "rt", API: api.name, Hang: true, M: why, Orig: project(rv), Res: tvNode{"g": "other"}, TagKeyed: api.mode == "tags"})
+	return mustJSON(rtEvent{Ev: "rt", API: api.name, Hang: true, Skip: res.skipped, M: res.verdict.msg, Orig: project(rv), Res: tvNode{"g": "other"},
+		TagKeyed: api.mode == "tags"})
 }
 
 func lastLine(s string) string { return fatalLine(s) }
@@ -417,7 +395,7 @@ func lastLineOld(s string) string {
 
 // rtChild: one round trip of one case through one route, in this process.
 func rtChild(args []string) {
-	debug.SetMaxStack(32 << 20) // unbounded recursion ends this child quickly
+	childInit()
 	lines := readLines(os.Stdin)
 	var c caseSpec
 	if err := json.Unmarshal(lines[0], &c); err != nil {
